@@ -492,6 +492,61 @@ def handle(line: str) -> str:
             return "OK " + _json.dumps({"nodes": len(nodes), "classes": classes}, sort_keys=True)
         except Exception as e:  # noqa
             return "BAD-REQUEST " + repr(e)
+    if cmd == "SETWITH":
+        try:
+            from metasequoia_sql import SQLParser, SQLType
+            from metasequoia_sql.core import node as cnode
+            import pydump
+            i = words.index("|")
+            ta = "".join(chr(int(w)) for w in words[2:i])
+            tb = "".join(chr(int(w)) for w in words[i + 1:])
+            try:
+                sa = SQLParser.parse_statements(ta, sql_type=SQLType[words[1]])
+                sb = SQLParser.parse_statements(tb, sql_type=SQLType[words[1]])
+            except Exception as e:  # noqa
+                return "PARSEERR " + err_name(e)
+            if len(sa) != 1 or len(sb) != 1 or not isinstance(sb[0], cnode.ASTSelectStatement) or not hasattr(sa[0], "with_clause"):
+                return "PARSEERR ParseErr"
+            before = pydump.dump(sb[0])
+            try:
+                r = sb[0].set_with_clauses(sa[0].with_clause)
+            except Exception as e:  # noqa
+                return "HELPERR " + err_name(e)
+            if pydump.dump(sb[0]) != before:
+                return "OK !receiver-mutated"
+            if type(r) is not type(sb[0]):
+                return "OK !class-changed"
+            try:
+                hash(r)
+                h = "hashable"
+            except TypeError:
+                h = "unhashable"
+            return "OK " + pydump.dump(r) + " | " + h
+        except Exception as e:  # noqa
+            return "BAD-REQUEST " + repr(e)
+    if cmd == "PAIR11":
+        # == must agree with structure (reflective dump) on the statements of two texts; equal statements must hash equal
+        try:
+            from metasequoia_sql import SQLParser, SQLType
+            import pydump
+            i = words.index("|")
+            ta = "".join(chr(int(w)) for w in words[2:i])
+            tb = "".join(chr(int(w)) for w in words[i + 1:])
+            try:
+                sa = SQLParser.parse_statements(ta, sql_type=SQLType[words[1]])
+                sb = SQLParser.parse_statements(tb, sql_type=SQLType[words[1]])
+            except Exception as e:  # noqa
+                return "PARSEERR " + err_name(e)
+            for x in sa:
+                for y in sb:
+                    same = pydump.dump(x) == pydump.dump(y)
+                    if (x == y) != same or (x != y) == same:
+                        return "FAIL == is %s but the structures are %s" % (x == y, "equal" if same else "different")
+                    if x == y and hash(x) != hash(y):
+                        return "FAIL equal statements hash differently"
+            return "OK"
+        except Exception as e:  # noqa
+            return "BAD-REQUEST " + repr(e)
     if cmd == "CURSOR":
         try:
             return run_cursor(words[1:])
